@@ -217,6 +217,10 @@ impl Rebuildable for Declaration
 			{
 				let mut buffer = String::new();
 				write!(&mut buffer, "{}", indentation)?;
+				if flags.contains(DeclarationFlag::Public)
+				{
+					write!(&mut buffer, "pub ")?;
+				}
 				if flags.contains(DeclarationFlag::External)
 				{
 					write!(&mut buffer, "extern ")?;
@@ -341,7 +345,11 @@ impl Rebuildable for Declaration
 			Declaration::Import {
 				filename,
 				location: _,
-			} => Ok(format!("{}import \"{}\";\n", indentation, filename)),
+			} => Ok(format!(
+				"{}import \"{}\";\n",
+				indentation,
+				filename.escape_default()
+			)),
 			Declaration::Poison(poison) => poison.rebuild(indentation),
 		}
 	}
